@@ -27,7 +27,7 @@ def obligations(tier):
 
     # errD: position carried by the first error, token path and value path
     for vp in B:
-        n = 4 if q else 5
+        n = 4 if q else 6
         L.append(ob("errD/%s/len<=%d" % (path[vp], n), "jsontext", "VerifC16ErrD", ["", n, 3, vp, False],
                     covers=["clean", "invalid", "truncated", "nested"]))
         if not q:
@@ -35,15 +35,12 @@ def obligations(tier):
         for i, t in enumerate(ERR_T_Q if q else ERR_T_Q + ERR_T_T):
             L.append(ob("errD/%s/t%d" % (path[vp], i), "jsontext", "VerifC16ErrD", [t, 0, 16, vp, False],
                         covers=["duplicate"] if i in (3, 4) else ["invalid", "nested"]))
-    if not q:
-        L.append(ob("errD/tok/len<=6", "jsontext", "VerifC16ErrD", ["", 6, 3, False, False], covers=["clean", "invalid", "truncated", "nested"]))
 
     # posD: positions after every decoder call
-    n = 4 if q else 5
+    n = 4 if q else 6
     L.append(ob("posD/tok/len<=%d" % n, "jsontext", "VerifC16PosD", ["", n, 3, n + 1, False, False], covers=["token", "eof", "error", "nested", "name-just-read"]))
     L.append(ob("posD/mix/len<=%d" % n, "jsontext", "VerifC16PosD", ["", n, 3, n + 1, True, False], covers=["token", "value", "eof", "error", "nested", "name-just-read"]))
     if not q:
-        L.append(ob("posD/tok/len<=6", "jsontext", "VerifC16PosD", ["", 6, 3, 7, False, False], covers=["token", "eof", "error", "nested"]))
         L.append(ob("posD/mix/allowdup/len<=4", "jsontext", "VerifC16PosD", ["", 4, 3, 5, True, True], covers=["token", "value"]))
     for i, t in enumerate(POS_T_Q if q else POS_T_Q + POS_T_T):
         L.append(ob("posD/tok/t%d" % i, "jsontext", "VerifC16PosD", [t, 0, 16, 12, False, False], covers=["token", "nested", "eof"]))
@@ -63,5 +60,37 @@ def obligations(tier):
     return L
 
 
-BOUNDS = {"quick": "", "thorough": ""}
-ASSUMPTIONS = []
+_COMMON = (
+    "Buffer-mode Decoder (whole input in the buffer, default options; thorough adds AllowDuplicateNames(true) variants) and "
+    "Encoder over an accept-all writer (default options). Reference: zzspec.Tracker, an independent token reader written from the "
+    "StackDepth/StackIndex/StackPointer documentation, RFC 8259 and RFC 6901. "
+    "posD: after EVERY call (successful or failing) of a ReadToken loop, or of a solver-chosen ReadToken/ReadValue mixture, "
+    "InputOffset, StackDepth, StackIndex(0..depth) and StackPointer equal the tracker run over b[:InputOffset]. "
+    "posE: the same for OutputOffset/Stack* after every call (accepted or rejected) of all sequences of k calls from "
+    "{null, {, }, [, ], String(s), Uint(7), WriteValue(raw)} after 6 concrete preludes (empty, {\"a\":7, [{\"a~/\", {\"a\":[, {\"a\":7,\"b\":{\"a\":7, [7), "
+    "s over {a ~ / \"}, raw over SigmaStruct. "
+    "errD: first error of the token path (ReadToken loop) and of the value path (ReadValue loop): io.EOF only for accepted input, "
+    "else *SyntacticError with 0<=ByteOffset<=len, b[:ByteOffset] a viable prefix (zzspec.ScanStream), ByteOffset inside the first token "
+    "no JSON stream can continue with (end of input for truncated input; a ',' directly before '}'/']' may be blamed instead of the bracket), "
+    "JSONPointer = innermost container open at ByteOffset or its direct child there (member whose name was read and whose value is due; "
+    "next array element after '[' or ','), for ErrDuplicateName container + '/' + escaped name. "
+    "ptr: IsValid == RFC 6901 validity; for valid p Tokens/LastToken/Parent/AppendToken/Contains against reference split/join/escape. "
+    "OUTSIDE the bound: the SemanticError clause of C16 (Unmarshal conversion errors are produced by reflection-driven arshalers the engine "
+    "cannot execute) and Unmarshal-into-any positions; streaming mode (io.Reader refills: covered for agreement with buffer mode by C05); "
+    "SkipValue/PeekKind interleavings; legacy error offsets (ReportErrorsWithLegacySemantics); non-default encoder options (indentation, "
+    "escaping flags); depth > 4; strings with \\u escapes or non-ASCII bytes in decoder inputs. ")
+
+BOUNDS = {
+    "quick": _COMMON + "Sizes: decoder inputs = all strings of <=4 bytes over SigmaStruct {}[]:,\"a1 and space, plus templates with 1-3 holes over "
+             "{}[]:,\"a1 b2~/\\ and space: " + ", ".join(ERR_T_Q + POS_T_Q) + "; encoder k=2, |s|<=1, |raw|<=2; pointers <=4 bytes over {/ ~ 0 1 a} "
+             "(<=3 with 0xC3 0xA9 0xFF added), AppendToken p<=2,tok<=2, Contains p<=3,q<=3.",
+    "thorough": _COMMON + "Sizes: decoder inputs <=6 bytes over SigmaStruct, templates: " + ", ".join(ERR_T_Q + ERR_T_T + POS_T_Q + POS_T_T) +
+                "; encoder k=2 (|s|<=2,|raw|<=3), k=3 (|s|<=1,|raw|<=2) for all preludes, k=4 from the empty state; pointers <=6 bytes ASCII, <=4 with UTF-8/0xFF bytes, "
+                "AppendToken p<=3,tok<=3, Contains p<=4,q<=5.",
+}
+ASSUMPTIONS = [
+    "C16: d.s.reset(b, nil, opts...) is used to obtain a buffer-mode Decoder as Unmarshal/Value methods do (internal entry point, no exported constructor for it)",
+    "C16: a nested object/array counts in its parent's StackIndex length from its opening token on (reading of 'decoded so far' needed for StackPointer to designate the value being read)",
+    "C16: Encoder.OutputOffset is compared with the number of bytes produced (including the newline the encoder writes after a top-level value)",
+    "C16: 'offending token' for a ',' directly followed by '}' or ']' may be the comma (trailing comma) or the bracket",
+]
